@@ -3,6 +3,7 @@
 Graph case: {"n", "edges": [[u,v,w]...] (integer w), "wscale": 1|4 (real weight = w / wscale), "labels": kind,
 "queries": [[src, dst]...]}.  Distances are projected to integers in units of 1/wscale (exact flag otherwise).
 """
+from drivers.labels import FreshList
 import math
 import random
 
@@ -16,6 +17,8 @@ def _label(kind, i):
         return (i // 3, i % 3, "x")
     if kind == "neg":
         return -i * 7 - 1
+    if kind == "big":        # beyond CPython's small-int cache: equal labels are separate objects
+        return 1000 + i
     if kind == "odd":        # falsy and mutually unorderable labels (None is left out: goal=None means "explore everything" in bfs/dfs)
         odd = ["", 0, (), 1.5, frozenset(), b"", ("t",), -1, "x", 7, (0, 0), 2.5]
         return odd[i] if i < len(odd) else ("odd", i)
@@ -73,7 +76,7 @@ def run_settle(case):
     E = [(u, v, w / scale) for u, v, w in case["edges"]]
     if any(w < 0 for _, _, w in E):
         return {"skipped": True}
-    labs = [_label(kind, i) for i in range(n)]
+    labs = FreshList(_label(kind, i) for i in range(n))
     lab2id = {lb: i for i, lb in enumerate(labs)}
     adj = {lb: [] for lb in labs}
     for u, v, w in E:
@@ -116,7 +119,7 @@ def run_graph(case):
     from solvor.floyd_warshall import floyd_warshall
     n, scale, kind = case["n"], case.get("wscale", 1), case.get("labels", "int")
     E = [(u, v, w / scale) for u, v, w in case["edges"]]
-    labs = [_label(kind, i) for i in range(n)]
+    labs = FreshList(_label(kind, i) for i in range(n))
     lab2id = {lb: i for i, lb in enumerate(labs)}
     adj = {lb: [] for lb in labs}
     for u, v, w in E:
@@ -248,7 +251,7 @@ def gen_graph(rng, nmax=9, small=False):
         if rng.random() < 0.5:
             q.append(rng.randint(0, 12))
         qs.append(q)
-    return {"n": n, "edges": edges, "wscale": scale, "labels": rng.choice(["int", "str", "tuple", "neg", "odd"]), "queries": qs}
+    return {"n": n, "edges": edges, "wscale": scale, "labels": rng.choice(["int", "str", "tuple", "neg", "odd", "big"]), "queries": qs}
 
 
 def gen_grid(rng, rmax=7, cmax=7):
